@@ -183,7 +183,11 @@ pub fn const_conditions() -> Vec<String> {
         "(not x) and false", "x and false", "false and x", "nil and (nil + 1)", "false or nil", "(get1() and false)", "({} and nil)",
         "({get1()} and nil)", "(function() end) and false", "1 < 2 and 2 < 1", "(if true then false else true)",
         "(if x then false else false)", "(if false then true elseif nil then true else nil)", "`a` == 'a'", "`{1}` == '1'", "`{nil}` == 'nil'",
-        "7 // 2 == 3", "(nil :: any)", "((false))", "not not not nil", "#{} == 0", "-x < 0", "t == t", "{} == {}", "nil == false",
+        "7 // 2 == 3", "(nil :: any)", "-7 % 3 == 2", "7 % -3 == -2", "-7 % 3 == -1", "5 % 3 == 2", "-7 // 2 == -4", "-7 // 2 == -3", "2 ^ 0.5 > 1.4",
+        "-(-2) == 2", "1 / 2 == 0.5", "3 - 5 < 0", "2 * 3 == 6", "2 ^ 3 ^ 2 == 512", "-2 ^ 2 == -4", "5.5 % 2 == 1.5", "1 % 0 ~= 1 % 0", "1 // 0 > 1e308",
+        "'10' + 0 == 10", "'0x10' + 0 == 16", "' 5 ' * 1 == 5", "'1e1' + 0 == 10", "'5.' + 0 == 5", "'.5' + 0 == 0.5", "'1_0' + 0 == 10", "-'3' == -3",
+        "'a' + 0 == 0", "10 .. '' == '10'", "1.5 .. '' == '1.5'", "-1 .. '' == '-1'", "1e15 .. '' == '1e+15'", "2^53 .. '' == '9.007199254741e+15'",
+        "0.1 .. '' == '0.1'", "'a' .. 1 .. 2 == 'a12'", "#('ab' .. 'c') == 3", "#`x{1}` == 2", "'a' < 'B'", "'' < ' '", "'a' <= 'a'", "'b' >= 'a' and 'a' >= 'b'", "((false))", "not not not nil", "#{} == 0", "-x < 0", "t == t", "{} == {}", "nil == false",
     ] {
         v.push(e.to_owned());
     }
@@ -394,11 +398,163 @@ return g(3)
     v
 }
 
+
+/// object prelude: `o`, `o2` have a metatable whose every metamethod emits an event first
+const OBJ_PRELUDE: &str = "local MT = {}\nMT.__index = function(tb, k) emit('__index', k) return 1 end\nMT.__newindex = function(tb, k, w) emit('__newindex', k) end\nMT.__add = function(a, b) emit('__add') return 1 end\nMT.__sub = function(a, b) emit('__sub') return 1 end\nMT.__unm = function(a) emit('__unm') return 1 end\nMT.__len = function(a) emit('__len') return 1 end\nMT.__concat = function(a, b) emit('__concat') return 'c' end\nMT.__eq = function(a, b) emit('__eq') return true end\nMT.__lt = function(a, b) emit('__lt') return true end\nMT.__le = function(a, b) emit('__le') return true end\nMT.__call = function(self, a) emit('__call') return 1 end\nMT.__tostring = function(a) emit('__tostring') return 'o' end\nlocal o = setmetatable({}, MT)\nlocal o2 = setmetatable({}, MT)\n";
+
+/// expressions whose evaluation has an observable effect, one per disjunct of `Evaluator::has_side_effects`
+/// (and a few that look effectful but are not evaluated)
+pub const EFFECTFUL: [&str; 53] = [
+    "get1()", "(get1())", "f2()", "o()", "o:m()", "sink(1)",
+    "{[get1()] = 1}", "{[get1()] = true, [2] = 2}", "{[1] = get1()}", "{k = get1()}", "{get1()}", "{1, get1(), 3}",
+    "{[o.z] = 1}", "{[o[1]] = true}", "{[-o] = 1}", "{[#o] = 1}", "{a = {[get1()] = 1}}", "{{[o.z] = 1}}", "{[{get1()}] = 1}",
+    "o.z", "o[1]", "o[get1()]", "t[o.z]", "-o", "#o", "not o.z", "(o.z)", "o + 1", "1 + o", "o .. 'a'", "'a' .. o", "o == o2", "o ~= o2",
+    "o < o2", "o <= o2", "1 < o", "true and o.z", "nope or o.z", "x and o.z", "x or o.z", "nil and o.z", "(if x then o.z else 1)", "o.z :: any",
+    "function() return o.z end",
+    "(if true then o.z else 1)", "(if nope then 1 else o.z)", "(if nope then o.z else 1)", "(if x then 1 elseif nope then o.z else 2)",
+    "(if false then 1 elseif true then get1() else 2)", "(if false then 1 elseif nil then 2 else get1())", "`a{get1()}b`", "`{o.z}`", "`{1}{f2()}`",
+];
+
+/// positions where a default rule may discard (or duplicate) the evaluation of `@`
+pub const DISCARDS: [&str; 22] = [
+    "local unused = @\nreturn 1",
+    "local u1, u2 = 1, @\nreturn 2",
+    "local u1, u2 = @, 1\nreturn u2",
+    "local v = 1, @\nreturn v",
+    "local v, w = nil, 1, @\nreturn v, w",
+    "local v = nil, @, nil\nreturn v",
+    "do local inner = @ end\nreturn 3",
+    "local function g() local z = @ end\ng()\nreturn 4",
+    "local n = 0\nrepeat n = n + 1 local z = @ until n > 1\nreturn n",
+    "while (@) and false do emit('body') end\nreturn 5",
+    "while false and (@) do emit('body') end\nreturn 5",
+    "while not ({@}) do emit('body') end\nreturn 5",
+    "if (@) and false then emit('then') else emit('else') end\nreturn 6",
+    "if false then emit('a') elseif (@) and nil then emit('b') end\nreturn 6",
+    "if true or (@) then emit('then') end\nif nil and (@) then emit('x') else emit('y') end\nreturn 6",
+    "return t[(@) and 'k'], ({[(@) and 'a'] = 1}).a",
+    "return ((@) and nil), #({@} and 'ab'), not {@}",
+    "return (if (@) and false then 1 else 2), (if {@} then 3 else 4)",
+    "local a, b = nil, (@)\nreturn a",
+    "local a, b, c = (@), nil\nreturn c",
+    "for i = 1, 2 do local w = @ end\nreturn 7",
+    "local u = @\nlocal function h() return u end\nreturn 8",
+];
+
+fn discard_effect_programs() -> Vec<String> {
+    let mut v = Vec::new();
+    for e in EFFECTFUL {
+        for d in DISCARDS {
+            v.push(format!("{}{}o.m = function(self) emit('m') return 2 end\n{}\n", PRELUDE, OBJ_PRELUDE, d.replace('@', e)));
+        }
+    }
+    v
+}
+
+/// expressions of every kind `can_return_multiple_values` distinguishes
+pub const VALUE_KINDS: [&str; 24] = [
+    "f2()", "(f2())", "...", "(...)", "o:m2()", "t.f()", "-x", "not x", "#t", "x + 1", "x .. ''", "x == 1", "x < 2", "x and f2()", "x or f2()",
+    "f2() and f2()", "(if x then f2() else f2())", "t.k", "t[1]", "x", "nil", "{f2()}", "function() return f2() end", "f2() :: any",
+];
+
+fn multi_value_programs() -> Vec<String> {
+    let templates = [
+        "local a, b, c = nil, @\nreturn a, b, c",
+        "local a, b, c = @, nil\nreturn a, b, c",
+        "local a, b, c = nil, nil, @\nreturn a, b, c",
+        "local a, b = nil, @, nil\nreturn a, b",
+        "local a, b, c = @\nreturn c",
+        "local a, b, c = @\nreturn a",
+        "local a, b, c = 1, @\nreturn b",
+        "local a, b, c = 1, @\nlocal function r() return c end\nreturn r()",
+        "local a, b = @, @\nreturn b",
+        "return 0, if x then @ else 1",
+        "return {if nope then 1 else @}",
+        "emit(select('#', if true then @ else 1))",
+        "local a, b = if x then @ else nil\nreturn a, b",
+        "return true and @",
+        "emit(nope or @)",
+        "local a, b = 1 and @\nreturn a, b",
+    ];
+    let mut v = Vec::new();
+    for e in VALUE_KINDS {
+        for tpl in templates {
+            v.push(format!(
+                "{}t.f = f2\nlocal o = {{ m2 = function(self) emit('m2') return 7, 8 end }}\nlocal function w(...)\n{}\nend\nreturn w(21, 22)\n",
+                PRELUDE,
+                tpl.replace('@', e)
+            ));
+        }
+    }
+    v
+}
+
+/// "the inner declaration shadows a name that the same statement's header / initialiser reads", in every
+/// scope kind, each with the outer name used ONLY there (so a wrong scope makes it look unused) and also used later
+fn scope_shadow_programs() -> Vec<String> {
+    let shapes = [
+        // generic for: explist read vs loop variables
+        ("local a = {10, 20, 30}", "for _, a in ipairs(a) do emit(a) end"),
+        ("local a = {10, 20, 30}", "for a, c in ipairs(a) do emit(a, c) end"),
+        ("local a = {10, 20, 30}", "for a in pairs(a) do emit(a) end"),
+        ("local a = {5, 6}", "for k, a in next, a do emit(k, a) end"),
+        ("local a = {5, 6}", "for a, a in ipairs(a) do emit(a) end"),
+        ("local a = {5, 6}", "for i, v in ipairs(a) do for a, v in ipairs(a) do emit(i, a, v) end end"),
+        ("local a = {5, 6}", "for _, a in ipairs({a[1], a[2], #a}) do emit(a) end"),
+        ("local a = {5, 6}", "for _, w in ipairs(a) do local a = w emit(a) end"),
+        ("local a = function(tb) return ipairs(tb) end", "for a, c in a({7, 8}) do emit(a, c) end"),
+        // numeric for: start / limit / step read vs loop variable
+        ("local a = 2", "for a = a, a + 2 do emit(a) end"),
+        ("local a = 2", "for a = 1, a do emit(a) end"),
+        ("local a = 2", "for a = 1, 5, a do emit(a) end"),
+        ("local a = 2", "for i = 1, 2 do for a = a, 3 do emit(i, a) end end"),
+        // local: initialiser reads the outer binding
+        ("local a = 1", "local a = a + 1\nemit(a)"),
+        ("local a = 1", "local a, b = 5, a\nemit(a, b)"),
+        ("local a = 1", "local b, a = a, 6\nemit(a, b)"),
+        ("local a = 1", "do local a = a emit(a) end"),
+        ("local a = 1", "local a = function() return a end\nemit(a())"),
+        ("local a = 1", "local function g() local a = a + 1 return a end\nemit(g())"),
+        ("local a = {k = 4}", "if a then local a = a.k emit(a) end"),
+        ("local a = 3", "while a do local a = nil emit(a == nil) break end"),
+        // local function: the body sees the function itself, the parameters shadow
+        ("local a = 1", "local function a(p) if p then return a(nil) end return 9 end\nemit(a(true))"),
+        ("local a = 1", "local function g(a) return a end\nemit(g(a + 1))"),
+        ("local a = 1", "local g = function(a, b) return a, b end\nemit(g(2, a))"),
+        ("local a = 1", "local function g(...) local a = ... return a end\nemit(g(a + 5))"),
+        ("local a = {}", "function a.m(a) return a end\nfunction a:n(p) return self == a, p end\nemit(a.m(3), a:n(4))"),
+        ("local self = 1", "local tb = {}\nfunction tb:m() return self end\nemit(tb:m() == tb, self)"),
+        // repeat: the condition sees the body's locals
+        ("local a = false", "local n = 0\nrepeat n = n + 1 local a = n > 1 until a\nemit(n)"),
+        ("local a = true", "local n = 0\nrepeat n = n + 1 local b = a until b or n > 2\nemit(n)"),
+        ("local a = 0", "repeat local a = a + 1 emit(a) until a > 0"),
+        ("local a = 0", "repeat a = a + 1 local c = a until c > 1\nemit(a)"),
+        // closures capturing before / after the shadowing declaration
+        ("local a = 1", "local function g() return a end\nlocal a = 2\nemit(g(), a)"),
+        ("local a = 1", "local b = a\nlocal a = b + 1\nlocal b = a + 1\nemit(a, b)"),
+    ];
+    let mut v = Vec::new();
+    for (outer, inner) in shapes {
+        // the outer name is read only by the header / initialiser
+        v.push(format!("{}{}\n{}\nreturn 1\n", PRELUDE, outer, inner));
+        // … and also afterwards
+        v.push(format!("{}{}\n{}\nreturn a\n", PRELUDE, outer, inner));
+        // inside a function body and a nested block
+        v.push(format!("{}local function outerf(...)\n{}\ndo\n{}\nend\nreturn 2\nend\nreturn outerf(1)\n", PRELUDE, outer, inner));
+        // the outer binding is a parameter
+        if let Some(init) = outer.strip_prefix("local a = ") {
+            v.push(format!("{}local function pf(a)\n{}\nend\npf({})\nreturn 3\n", PRELUDE, inner, init));
+        }
+    }
+    v
+}
+
 pub fn exhaustive_parts(thorough: bool) -> Vec<(&'static str, bool)> {
     vec![
         ("expr-ctx: every expression of depth <= 1 over the small leaf alphabet in every context kind", thorough),
         ("const-cond: the listed constant-condition forms in every while/if/repeat template", true),
         ("early-return / method-def / call-parens templates", true),
+        ("scope-shadow: every listed shadowing shape in every wrapper; discard-effect: every effectful expression in every discard position; multi-value: every value kind in every template", true),
     ]
 }
 
@@ -452,6 +608,25 @@ pub fn targeted(seed: u64, thorough: bool) -> Vec<Targeted> {
     }
     for p in index_field_programs() {
         out.push(Targeted { family: "index-field", code: p, rules: vec!["convert_index_to_field", "compute_expression", "remove_function_call_parens"], pipeline: true });
+    }
+    for p in scope_shadow_programs() {
+        out.push(Targeted { family: "scope-shadow", code: p, rules: vec!["remove_unused_variable", "rename_variables", "remove_nil_declaration", "compute_expression"], pipeline: true });
+    }
+    for (i, p) in discard_effect_programs().into_iter().enumerate() {
+        out.push(Targeted {
+            family: "discard-effect",
+            code: p,
+            rules: vec!["remove_unused_variable", "remove_nil_declaration", "remove_unused_while", "remove_unused_if_branch", "compute_expression", "convert_index_to_field"],
+            pipeline: i % 7 == 0,
+        });
+    }
+    for (i, p) in multi_value_programs().into_iter().enumerate() {
+        out.push(Targeted {
+            family: "multi-value",
+            code: p,
+            rules: vec!["remove_nil_declaration", "remove_unused_variable", "remove_unused_if_branch", "compute_expression"],
+            pipeline: i % 7 == 0,
+        });
     }
     for p in underscore_programs() {
         out.push(Targeted { family: "underscore", code: p, rules: vec!["remove_unused_variable", "rename_variables", "remove_nil_declaration"], pipeline: true });
